@@ -172,6 +172,11 @@ fn main() -> ExitCode {
 
     match module.link(&mut output) {
         Ok((str_interner, mut file_manager, symtab)) => {
+            // standard output is buffered: a write error must not get lost at exit
+            if let Err(e) = output.flush() {
+                eprintln!("[ERROR]: Failed to write output: {e}");
+                return ExitCode::FAILURE;
+            }
             if let Arch::Mos6502 {
                 g_nl: Some(path), ..
             } = &args.architecture
